@@ -74,12 +74,35 @@ class Runner:
         self.auto = auto
         self.repo = repo
         self.fi = summ.fi
-        self.by_stmt: Dict[int, List[Event]] = {}
+        # events by (expansion path of transparent helpers, statement): a helper that was expanded in place is executed by the runner
+        # as a block of its own (its branches, loops and handlers are seen), at the point of the statement that calls it
+        self.by_stmt: Dict[Tuple[Tuple[int, ...], int], List[Event]] = {}
+        self.under: Dict[Tuple[Tuple[int, ...], int], List[Event]] = {}    # events of deeper expansions started at that statement
         for e in summ.events:
-            if not e.chain:
-                self.by_stmt.setdefault(e.stmt_id, []).append(e)
+            if e.chain:
+                continue
+            path = getattr(e, "inl_path", ())
+            self.by_stmt.setdefault((path, e.inner_stmt_id if path else e.stmt_id), []).append(e)
+        self.path: Tuple[int, ...] = ()
+        self.anchor: Dict[int, Tuple[Tuple[int, ...], int]] = {}      # expansion id -> (path, statement) where it starts
+        self._anchor_expansions()
         self.violations: List[Violation] = []
         self.event_count = 0
+
+    def _anchor_expansions(self) -> None:
+        """where each expansion of a helper starts: recorded by the summariser as (path, statement, index of the next event)"""
+        self.expansions_at: Dict[Tuple[Tuple[int, ...], int], List[int]] = {}
+        self.start_idx: Dict[int, int] = {}
+        for n, (path, st_id, idx) in sorted(getattr(self.summ, "inl_anchor", {}).items()):
+            self.anchor[n] = (tuple(path), st_id)
+            self.start_idx[n] = idx
+            self.expansions_at.setdefault((tuple(path), st_id), []).append(n)
+
+    def test_of(self, st: ast.AST) -> Optional[Term]:
+        t2 = getattr(self.summ, "tests2", None)
+        if t2 is not None and (self.path, id(st)) in t2:
+            return t2[(self.path, id(st))]
+        return self.summ.tests.get(id(st)) if not self.path else None
 
     # ------------------------------------------------------------------ public
     def run(self) -> Out:
@@ -91,9 +114,35 @@ class Runner:
         return out
 
     # ------------------------------------------------------------------ events of a statement header
+    def run_expansion(self, n: int, S: States, exc: States) -> States:
+        """execute the body of a helper that the summariser expanded in place; its returns continue the calling statement"""
+        callee = self.summ.inlinings.get(n)
+        if callee is None or not S:
+            return S
+        saved = self.path
+        self.path = self.anchor[n][0] + (n,)
+        try:
+            o = self.block(func_body(callee), S)
+        finally:
+            self.path = saved
+        _merge(exc, o.exc)
+        nxt: States = dict(o.normal)
+        _merge(nxt, o.ret)
+        return nxt
+
     def events(self, node: ast.AST, S: States, exc: States) -> States:
-        evs = self.by_stmt.get(id(node), [])
-        for ev in evs:
+        key = (self.path, id(node))
+        evs = list(self.by_stmt.get(key, []))
+        pend = list(self.expansions_at.get(key, []))
+        # interleave: an expansion runs when the first event that lies inside it comes up in execution order
+        # an expansion that started when k events had been emitted runs before the event with index k ("a" sorts before "ev")
+        items: List[Tuple[int, str, Any]] = [(e.seq, "ev", e) for e in evs] + [(self.start_idx[n], "a", n) for n in pend]
+        items.sort(key=lambda it: (it[0], it[1]))
+        for _seq, kind, obj in items:
+            if kind == "a":
+                S = self.run_expansion(obj, S, exc)
+                continue
+            ev = obj
             if ev.kind in ("return",):
                 continue
             self.event_count += 1
@@ -162,7 +211,7 @@ class Runner:
             return o
         if isinstance(st, ast.If):
             S2 = self.events(st, S, o.exc)
-            test = self.summ.tests.get(id(st))
+            test = self.test_of(st)
             St: States = {}
             Sf: States = {}
             for s, t in S2.items():
@@ -186,7 +235,7 @@ class Runner:
             return o
         if isinstance(st, (ast.For, ast.While)):
             S2 = self.events(st, S, o.exc)
-            test = self.summ.tests.get(id(st)) if isinstance(st, ast.While) else None
+            test = self.test_of(st) if isinstance(st, ast.While) else None
             always = isinstance(st, ast.While) and isinstance(st.test, ast.Constant) and st.test.value is True
             head: States = dict(S2)
             exits: States = {}
